@@ -69,6 +69,12 @@ CUTS_Q += [
     ('B5', [(MAINNAME, 1, 2, 'k.conf'), (MAINNAME, 5, 6, 'k.conf')], True),
 ]
 CUTS_Q += [
+    # references spelled with '$$' (a literal dollar in the name) and with percent escapes
+    ('B1', [(MAINNAME, 1, 5, 'x/part$1.conf')], True),
+    ('B3', [(MAINNAME, 1, 5, 'x/$site/inc.conf'), ('x/$site/inc.conf', 1, 3, 'x/$site/in$a.conf')], True),
+    ('B2', [(MAINNAME, 0, 2, 'x/$a.conf')], True),
+    ('B1', [(MAINNAME, 1, 5, 'x/my%20dir/inc.conf')], True),
+    ('B4', [(MAINNAME, 3, 6, 'caf%C3%A9/f2.conf')], True),
     # fragment names that differ from an includer further up the chain in letter case only (other resources)
     ('B1', [(MAINNAME, 1, 5, 'x/MAIN.conf')], True),
     ('B1', [(MAINNAME, 1, 5, 'x/inc.conf'), ('x/inc.conf', 1, 3, 'x/Main.Conf')], True),
@@ -206,7 +212,8 @@ def make_files(base, cuts):
     order = [MAINNAME]
     for src, i, j, new in cuts:
         frag = files[src][i:j]
-        files[src][i:j] = ['%include ' + _rel(src, new)]
+        # a '$' in a reference is written '$$' (the argument of a directive is $-expanded once)
+        files[src][i:j] = ['%include ' + _rel(src, new).replace('$', '$$')]
         if new in files:
             # the same fragment file included twice: contents must agree
             assert files[new] == frag
